@@ -1,14 +1,16 @@
 """C13 — calls bind arguments exactly as CPython does.
 
-Proof: coq/Props/C13.v over coq/Bind/Model.v: two executable models, bind_py (SignedFunction._map_args,
-branch for branch; variant bind_py_fixed = with fixes/C13-posonly-kwargs.patch) and bind_c (CPython's
-initialize_locals).  bind_agree_fixed (all well-formed signatures and call shapes), bind_agree_refuted /
-bind_agree_partial / bind_disagree_exact for the code as it stands.
+Proof: coq/Props/C13.v over coq/Bind/Model.v + PytdModel.v: three executable models of pytype's binders --
+bind_py (SignedFunction._map_args; variant bind_py_fixed = with the positional-only/**kwargs repair),
+bind_pytd (stub functions: PyTDSignature._map_args + _fill_in_missing_parameters) -- and bind_c (CPython's
+initialize_locals).  bind_agree_fixed, bind_pytd_err_agree, bind_pytd_agree_except_kwargs for all well-formed
+signatures and call shapes; the _refuted / _partial / exact-boundary families where a mapper deviates.
 Tie, on every run: (a) bind_c vs a real call under CPython and vs inspect.Signature.bind; (b) the real
-pytype vs bind_py AND bind_py_fixed: it must coincide with one of the two on ALL cases; (c) the property
-oracle straight on the implementations: CPython TypeError iff pytype error at that line, and equal
-bindings on success.  A keyword naming a positional-only parameter of a function with **kwargs is the
-listed finding `posonly-name-as-keyword-with-kwargs`.
+pytype vs bind_py AND bind_py_fixed (it must coincide with one of the two on ALL cases) and, for callees
+declared in a generated .pyi, vs bind_pytd; (c) the property oracle straight on the implementations:
+CPython TypeError iff pytype error at that line, and equal bindings on success (for stubs: what a stub lets
+one observe).  Listed findings: `posonly-name-as-keyword-with-kwargs` (source functions, repaired in /repo),
+`stub-posonly-name-keyword-dropped-from-kwargs`, `stub-keyword-named-like-argname-placeholder`.
 """
 import collections
 import json
@@ -81,8 +83,13 @@ def build_items(r, thorough):
     for v in g.CTOR_VARIANTS:                        # constructors: inherited / __new__ / both
       for sig in [CTOR_SIG] + r.sample(small, 24):
         req.append((sig, v, pick_shapes(r, sig, v, 3, 2, None)))
+    starred = [s for s in small if s.va or s.kw]     # stub functions
+    for v, sigs in [("pyi:func", small), ("pyi:typed", r.sample(starred, 200))] + \
+                   [(v, r.sample(small, 40)) for v in g.PYI_VARIANTS[1:5]]:
+      for sig in sigs:
+        req.append((sig, v, pick_shapes(r, sig, v, 3, 2, None)))
     big = g.enum_sigs(3)
-    allv = g.VARIANTS + g.CTOR_VARIANTS
+    allv = g.VARIANTS + g.CTOR_VARIANTS + g.PYI_VARIANTS
     for n in range(7000):                            # <=3 of each kind x <=5 positional x <=3 keywords, sampled
       sig = r.choice(big)
       v = allv[n % len(allv)] if n % 2 else "func"
@@ -99,7 +106,13 @@ def build_items(r, thorough):
         req.append((sig, v, pick_shapes(r, sig, v, 3, 2, 4)))
     for sig in r.sample(g.enum_sigs(3), 6):          # a few larger ones
       req.append((sig, "func", pick_shapes(r, sig, "func", 5, 3, 16)))
-    allv = g.VARIANTS + g.CTOR_VARIANTS
+    starred = [s for s in small if s.va or s.kw]     # stub functions
+    for v, sigs in [("pyi:func", r.sample(hot, 6) + r.sample(small, 18)),
+                    ("pyi:typed", r.sample(hot, 10) + r.sample(starred, 10))] + \
+                   [(v, r.sample(small, 5)) for v in g.PYI_VARIANTS[1:5]]:
+      for sig in sigs:
+        req.append((sig, v, pick_shapes(r, sig, v, 3, 2, 6)))
+    allv = g.VARIANTS + g.CTOR_VARIANTS + g.PYI_VARIANTS
     for n in range(400):
       sig = r.choice(small)
       v = allv[n % len(allv)]
@@ -128,7 +141,7 @@ def model_exe():
 
 
 def run_model(exe, groups):
-  """Per case (wf, bind_py, bind_py_fixed, bind_c); a constructor call binds up to two signatures in turn."""
+  """Per case (wf, bind_py, bind_py_fixed, bind_c, bind_pytd); a constructor call binds up to two signatures in turn."""
   cases = [(v, g.model_lines(s, v, sh)) for grp in groups for (s, v, shs) in grp for sh in shs]
   lines = [l for _, ls in cases for l in ls]
   pr = subprocess.run([exe], input="\n".join(lines) + "\n", capture_output=True, text=True)
@@ -139,7 +152,7 @@ def run_model(exe, groups):
   for v, ls in cases:
     rows = out[i:i + len(ls)]; i += len(ls)
     res.append(("1" if all(r[0] == "1" for r in rows) else "0",) +
-               tuple(g.combine([r[c] for r in rows], v) for c in (1, 2, 3)))
+               tuple(g.combine([r[c] for r in rows], v) for c in (1, 2, 3, 4)))
   return res
 
 
@@ -165,7 +178,40 @@ def shows_known_defect(sig, variant, shape, py):
       e.kw and n in e.P and n in shape[1] and v == "K%d" % g.ID[n] for (n, e), v in zip(names, vals))
 
 
+STUB_FP_KWARGS = "stub-posonly-name-keyword-dropped-from-kwargs"
+STUB_FP_ARGNAME = "stub-keyword-named-like-argname-placeholder"
+
+
+def stub_known_defect(sig, variant, shape, real, py):
+  """The two listed stub-mapper findings, recognised on the implementations' outputs only (real = the full
+  CPython binding, py = what pytype reported).  Returns the fingerprint or None."""
+  if variant != "pyi:typed":
+    return None
+  e = g.effective(sig, variant)
+  # (1) a keyword spelled like the placeholder of an overflowing positional argument (_<i>) of an annotated
+  #     *args is reported as duplicate although CPython accepts the call
+  if py.startswith("E:dup:") and real.startswith("O:"):
+    name = g.NAME.get(int(py[6:])) if py[6:].isdigit() else None
+    if name in g.PLACEHOLDERS and name in shape[1] and e.va and shape[0] > int(name[1:]) >= len(e.P) + len(e.Q):
+      return STUB_FP_ARGNAME
+  # (2) a keyword naming a positional-only parameter is not checked against the **kwargs annotation: pytype
+  #     reports what CPython's binding would give if those keywords were not in **kwargs
+  if e.kw and real.startswith("O:") and any(k in e.P for k in shape[1]):
+    vals = real[2:].split(",")
+    kept = []
+    for v in vals:
+      if v.startswith("W"):
+        ks = [x for x in v[1:].split(".") if x and g.NAME[int(x)] not in e.P]
+        v = "W" + ".".join(ks)
+      kept.append(v)
+    if g.stub_view("O:" + ",".join(kept), sig, variant) == py:
+      return STUB_FP_KWARGS
+  return None
+
+
 def kind(s):
+  if s.startswith("T:"):
+    return "argtype"
   if s.startswith("E:"):
     return s.split(":")[1]
   if s.startswith("O:"):
@@ -174,13 +220,14 @@ def kind(s):
 
 
 def describe(sig, variant, shape):
-  tag = " [%s]" % variant if variant.startswith("ctor:") else ""
+  tag = " [%s]" % variant if variant.startswith(("ctor:", "pyi:")) else ""
   return "def(%s)%s call %s" % (g.params_text(sig, variant), tag, g.call_text(sig, variant, 0, shape))
 
 
 def observe_one(sig, variant, shape):
   cres, pres, _ = g.run_group([(sig, variant, [shape])])
-  return cres[0][0][0], pres[0][0]
+  real = cres[0][0][0]
+  return (g.stub_view(real, sig, variant) if variant.startswith("pyi:") else real), pres[0][0]
 
 
 def oracle_bad(sig, variant, shape):
@@ -241,10 +288,10 @@ def shrink(sig, variant, shape, keep_class, budget_s=20.0):
 
 
 def replay_obj(sig, variant, shape, real, py):
-  _, src, _ = g.module_text([(sig, variant, [shape])])
+  _, src, _, stub = g.module_text([(sig, variant, [shape])])
   return {"sig": sig_to_json(sig), "variant": variant, "shape": [shape[0], list(shape[1])],
           "def": g.params_text(sig, variant), "call": g.call_text(sig, variant, 0, shape),
-          "cpython": real, "pytype": py, "module": src[len(g.HEADER):],
+          "cpython": real, "pytype": py, "module": src[len(g.HEADER):], "stub": list(stub) if stub else None,
           "note": "module is preceded by c13_gen.HEADER (marker classes P<i>, K_<name>, D_<name>)"}
 
 
@@ -272,8 +319,10 @@ def run(res):
   res.assumptions = [
       "call sites without * / ** splats, every argument visible at the call (has_visible_namedarg = True)",
       "unannotated parameters (match_args is skipped; annotated functions re-derive callargs from annotations)",
-      "functions defined in the analysed source (SignedFunction._map_args); stub functions (PyTDSignature._map_args, "
-      "a different mapper) are not modelled",
+      "functions defined in the analysed source (SignedFunction._map_args -> bind_py / bind_py_fixed) and single-signature "
+      "stub functions (PyTDSignature._map_args + _fill_in_missing_parameters -> bind_pytd); overloaded stubs are not modelled",
+      "a stub has no body: for stub callees the outcome, the error class and the parameter it names are compared, and "
+      "with *va / **kw annotated by an uninhabited class also whether and which argument landed there (wrong-arg-types)",
       "CPython side = the interpreter running the check (3.12): a real call is authoritative; inspect.Signature.bind is "
       "compared too, minus its own stdlib defect on positional-only names passed as keywords to a **kwargs function",
       "generator, observers and differ in harness/props/c13.py + c13_gen.py; reveal_type printing of tuple/dict/Union",
@@ -314,7 +363,8 @@ def run(res):
   res.extra["groups_done"] = "%d done, %d required, %d generated" % (len(done), n_required, len(groups))
 
   hist = collections.Counter()
-  n_c = n_bind = n_un = n_fx = n_wf = n_unexpl = n_bind_div = n_sep = n_stray = 0
+  n_c = n_bind = n_un = n_fx = n_wf = n_unexpl = n_bind_div = n_sep = n_stray = n_stub = n_pytd = 0
+  stub_known = collections.OrderedDict()
   oracle_known = []
   oracle_other = collections.OrderedDict()
   first_bad = {}
@@ -330,7 +380,8 @@ def run(res):
       first_bad.setdefault("stray", stray[0])
     for j, (sig, variant, shapes) in enumerate(grp):
       for k, sh in enumerate(shapes):
-        wf, mpy, mpyf, mc = model[i]; i += 1
+        wf, mpy, mpyf, mc, mpytd = model[i]; i += 1
+        is_stub = variant.startswith("pyi:")
         n_seen += 1
         real, bound = cres[j][k]
         py = pres[j][k]
@@ -360,12 +411,33 @@ def run(res):
             n_bind += 1
             first_bad.setdefault("bind_c-vs-Signature.bind",
                                  "%s: model %s, Signature.bind %s" % (describe(sig, variant, sh), mc, bound))
-        if g.canon(mpy) != g.canon(mpyf):
+        if g.canon(mpy) != g.canon(mpyf) and not is_stub:
           n_sep += 1
         # (b) bind_py / bind_py_fixed vs pytype
         if py.startswith("X:"):
           n_unexpl += 1
           first_bad.setdefault("unexplorable", py)
+          continue
+        if is_stub:
+          # (b') the callee's signature comes from a stub: bind_pytd vs pytype, on what a stub lets one observe
+          n_stub += 1
+          hist["stub-model:" + kind(mpytd)] += 1
+          mview, rview = g.stub_view(mpytd, sig, variant), g.stub_view(real, sig, variant)
+          if g.canon(mview) != g.canon(py):
+            n_pytd += 1
+            first_bad.setdefault("bind_pytd-vs-pytype",
+                                 "%s: model %s, pytype %s" % (describe(sig, variant, sh), mview, py))
+          if g.outcome_only(rview) != g.outcome_only(py):
+            fpk = stub_known_defect(sig, variant, sh, real, py)
+            if fpk:
+              stub_known.setdefault(fpk, []).append((sig, variant, sh, rview, py))
+            else:
+              fp = "stub-binding-differs:cpython-%s/pytype-%s" % (kind(rview), kind(py))
+              oracle_other.setdefault(fp, []).append((sig, variant, sh, rview, py))
+          elif nontrivial and "stub:" + kind(rview) not in sampled and len(sampled) < 8:
+            sampled.add("stub:" + kind(rview))
+            res.sample({"stub def": g.stub_def_text(sig, variant, 0).strip(), "call": g.call_text(sig, variant, 0, sh, "stub"),
+                        "cpython": rview, "pytype": py, "bind_c": mc, "bind_pytd": mpytd}, cap=10)
           continue
         if not g.same_py(mpy, py):
           n_un += 1
@@ -410,6 +482,9 @@ def run(res):
   res.obligation("correspondence:pytype-vs-bind_py-or-bind_py_fixed", n_un == 0 or n_fx == 0,
                  "pytype differs from bind_py on %d and from bind_py_fixed on %d of %d cases; first: %s | %s"
                  % (n_un, n_fx, n_seen, first_bad.get("bind_py-vs-pytype", ""), first_bad.get("bind_py_fixed-vs-pytype", "")))
+  res.obligation("correspondence:pytype-stub-calls-vs-bind_pytd", n_pytd == 0 and n_stub > 0,
+                 "pytype differs from bind_pytd on %d of %d calls of stub functions; first: %s"
+                 % (n_pytd, n_stub, first_bad.get("bind_pytd-vs-pytype", "")))
   res.obligation("cases-separate-the-two-variants", n_sep > 0,
                  "%d explored cases on which bind_py and bind_py_fixed differ" % n_sep)
 
@@ -422,6 +497,16 @@ def run(res):
                   "instead of going to **kwargs: %s -> CPython %s, pytype %s (%d such calls in this run)"
                   % (describe(sig, variant, sh), real, py, len(oracle_known)),
                   replay_obj(sig, variant, sh, real, py))
+  for fpk, lst in stub_known.items():
+    sig, variant, sh, rview, py = min(lst, key=size)
+    what = ("a keyword naming a positional-only parameter of a stub function with **kwargs is not matched against the "
+            "**kwargs annotation" if fpk == STUB_FP_KWARGS else
+            "a keyword spelled like the placeholder name (_<i>) of an overflowing positional argument of a stub "
+            "function with annotated *args is reported as duplicate-keyword-argument")
+    res.violation(fpk, "%s: %s -> CPython %s, pytype %s (%d such calls in this run)"
+                  % (what, describe(sig, variant, sh), rview, py, len(lst)), replay_obj(sig, variant, sh, rview, py))
+  res.extra["oracle_disagreements_stub_known"] = {k: len(v) for k, v in stub_known.items()}
+  res.extra["stub_calls"] = n_stub
   res.extra["oracle_disagreements_known_class"] = len(oracle_known)
   res.extra["oracle_disagreements_other"] = {k: len(v) for k, v in oracle_other.items()}
   for fp, lst in list(oracle_other.items())[:3]:
@@ -459,7 +544,10 @@ def replay(res, path):
   real, py = observe_one(sig, variant, sh)
   print("def   :", g.params_text(sig, variant), " [%s]" % variant)
   print("call  :", g.call_text(sig, variant, 0, sh))
-  print(g.module_text([(sig, variant, [sh])])[1][len(g.HEADER):], end="")
+  mt = g.module_text([(sig, variant, [sh])])
+  if mt[3]:
+    print("# %s.pyi\n%s# source" % mt[3])
+  print(mt[1][len(g.HEADER):], end="")
   print("cpython:", real)
   print("pytype :", py)
   return 0 if g.outcome_only(real) == g.outcome_only(py) else 1
